@@ -1,6 +1,7 @@
 """C17 -- compiles and runs are independent of what was compiled or run before."""
 import itertools
 import random
+import sys
 import time
 
 import z3
@@ -445,8 +446,98 @@ def reload_worker(args):
     return res
 
 
+# ---- the time line of a second run of the same job (the real Clock object is kept by the Machine) ------------------
+def clock_rerun_worker(args):
+    from checks import c10
+    S = scripth.SENT_BASE
+    text, sids, due = [('time %d on all time %d off all on "A"' % (S + 1, S + 2), [1, 2], [[1], [1, 2], [1, 2, 2]]),
+                       ('time %d on "A" off "B" time %d on "C"' % (S + 1, S + 2), [1], None),
+                       ('time %d repeat 2 begin on all end' % (S + 1), [1], [[1], [1, 1]])][args['which']]
+    if due is None:
+        sids, due = [1, 2], [[1], [1], [1, 2]]
+    res = c10.vm_worker({'mode': 'logical', 'text': text, 'sids': sids, 'due': due, 'tag': 'run %d of the same job' % args['runs'], 'runs': args['runs'], 'tick_bound': 3, 'max_delay': 0.4,
+                         'max_paths': args['max_paths'], 'budget_s': args['budget_s']})
+    res.sites = {('clock-rerun' if x == 'vm-timeline' else x) for x in res.sites}
+    res.reached = {('clock-rerun' if x == 'vm-timeline' else x) for x in res.reached}
+    for v in res.violations:
+        v['sig'] = v['sig'].replace('vm-timeline', 'clock-rerun')
+        v['message'] = 'run %d of the same Machine (reset in between, as ScriptJob.execute does): %s' % (args['runs'], v['message'])
+    return res
+
+
+# ---- state outside the compiler objects: a fresh compiler in a process in which another compiler has worked ------------
+PROCESS_TEXTS = ['hue 120 on all', 'assign Hue 5 assign On 1 print {Hue + On}', 'define Set 3 hue Set set all', 'assign x 1 print x',
+                 'define f with All begin print All end f 2 on all', 'repeat all as Light begin on Light end', 'time at 8:00 on all',
+                 'define r with p begin brightness p set "A" end r 40', 'define R 2 repeat R begin off all end', 'units raw hue 100 set all',
+                 'define Units 7 print Units units rgb red 5 set all', 'assign Zone 1 set "Z" zone Zone']
+PROCESS_FIRST = PROCESS_TEXTS + ['repeat 2 begin on all', 'set "M" begin stage row', 'define r begin on all', 'assign ON 1 assign HUE 2 assign ALL 3 assign SET 4']
+_CHILD = r'''
+import json, os, sys
+from vlib import world
+from bardolph.parser.parse import Parser
+texts, first = json.loads(sys.argv[1]), json.loads(sys.argv[2])
+world.configure()
+def outcome(t):
+    p = Parser()
+    try:
+        ok = p.parse(t)
+    except Exception as ex:
+        return ['raises', type(ex).__name__, str(ex)]
+    return [bool(ok), p.get_errors(), [repr(i) for i in p.get_program()] if ok else None]
+if first is not None:
+    outcome(first)
+out = {}
+for t in texts:
+    r, w = os.pipe()
+    pid = os.fork()
+    if pid == 0:
+        os.close(r)
+        with os.fdopen(w, 'w') as f:
+            f.write(json.dumps(outcome(t)))
+        os._exit(0)
+    os.close(w)
+    with os.fdopen(r) as f:
+        out[t] = json.loads(f.read() or 'null')
+    os.waitpid(pid, 0)
+print('RESULT ' + json.dumps(out))
+'''
+
+
+def process_worker(args):
+    import json
+    import subprocess
+    res = report.WorkResult('compilers of one process')
+    res.sites.add('process-state')
+
+    def run(first):
+        cp = subprocess.run([sys.executable, '-c', _CHILD, json.dumps(PROCESS_TEXTS), json.dumps(first)], capture_output=True, text=True, timeout=300)
+        lines = [ln for ln in cp.stdout.splitlines() if ln.startswith('RESULT ')]
+        if not lines:
+            raise RuntimeError('child interpreter failed: %s' % cp.stderr[-400:])
+        return json.loads(lines[-1][7:])
+    pristine = run(None)
+    for t, o in pristine.items():
+        if o is None or o[0] is not True:
+            res.violation('process|not accepted', 'a valid script is not accepted by the first compiler of a new process: %r -> %r' % (t, o and o[:2]), inputs={'text': t}, replayed=True)
+    for first in PROCESS_FIRST:
+        got = run(first)
+        for t in PROCESS_TEXTS:
+            res.nontrivial += 1
+            res.reached.add('process-state')
+            if got.get(t) != pristine.get(t):
+                g, w = got.get(t), pristine.get(t)
+                what = 'verdict %r instead of %r (%s)' % (g and g[0], w and w[0], (g and g[1] or '').strip()) if (g and g[0]) != (w and w[0]) else 'a different program or message'
+                res.violation('process|%s' % scripth._sig_of(what)[:40],
+                              'a new compiler object gives %s for %r once another compiler object of the same process has compiled %r' % (what, t, first),
+                              inputs={'first': first, 'text': t}, replayed=True)
+                break
+    res.sample({'texts': PROCESS_TEXTS, 'first': len(PROCESS_FIRST)})
+    return res
+
+
 def dispatch(args):
-    return {'compile': compile_worker, 'rerun': rerun_worker, 'twojobs': twojobs_worker, 'reload': reload_worker}[args['kind']](args)
+    return {'compile': compile_worker, 'rerun': rerun_worker, 'twojobs': twojobs_worker, 'reload': reload_worker,
+            'clock-rerun': clock_rerun_worker, 'process': process_worker}[args['kind']](args)
 
 
 def run(tier, seed):
@@ -457,7 +548,10 @@ def run(tier, seed):
     triples = [tuple(rng.choice(POOL) for _ in range(3)) for _ in range(3000 if q else 60000)]
     quads = [tuple(rng.choice(POOL) for _ in range(4)) for _ in range(500 if q else 20000)]
     hists = pairs + triples + quads
-    items = []
+    items = [{'kind': 'process'}]
+    for which in range(3):
+        for runs in ((2,) if q else (2, 3)):
+            items.append({'kind': 'clock-rerun', 'which': which, 'runs': runs, 'max_paths': 1500 if q else 20000, 'budget_s': 20 if q else 200})
     for i in range(0, len(hists), 400):
         items.append({'kind': 'compile', 'label': str(i // 400), 'histories': hists[i:i + 400]})
     k = 0
